@@ -324,7 +324,11 @@ func (dr DateRange) ParseError() error {
 
 func (dr DateRange) String() string {
 	start, end := dr.StartAndEndDates()
-	if start.Equals(end) {
+
+	// Only a range whose ends are written the same way can be printed as a
+	// single date. Equals() is a fuzzy match that also takes the constraint
+	// into account ("Aft. 1900" equals "1950") and would drop the other end.
+	if start.Is(end) {
 		return start.String()
 	}
 
